@@ -93,6 +93,8 @@ enum Kind {
     Slice,
     Merge,
     Script,
+    Snapshot,
+    Refresh,
 }
 
 impl Profile {
@@ -101,7 +103,7 @@ impl Profile {
         match self {
             Profile::GcOrders => &[
                 (Add, 22), (Bind, 28), (Put, 20), (Data, 20), (NextIdAdd, 3), (Kid, 1), (Kids, 1),
-                (Clone, 1), (SaveLoad, 1), (Slice, 1), (Merge, 1), (NextId, 1),
+                (Clone, 1), (SaveLoad, 1), (Slice, 1), (Merge, 1), (NextId, 1), (Snapshot, 1), (Refresh, 1),
             ],
             Profile::Overwrite => &[
                 (Add, 16), (Bind, 34), (Put, 26), (Data, 14), (Kid, 4), (Kids, 4), (NextIdAdd, 2),
@@ -111,7 +113,7 @@ impl Profile {
             ],
             Profile::Alloc => &[
                 (Add, 16), (Bind, 18), (Put, 10), (Data, 14), (NextId, 12), (NextIdAdd, 14),
-                (Clone, 4), (Merge, 6), (Script, 5), (SaveLoad, 1),
+                (Clone, 3), (Merge, 6), (Script, 5), (SaveLoad, 1), (Snapshot, 2), (Refresh, 2),
             ],
             Profile::Limit => &[(Add, 18), (Bind, 56), (Put, 12), (Data, 10), (NextIdAdd, 4)],
             Profile::Forest => &[
@@ -120,7 +122,7 @@ impl Profile {
             ],
             Profile::ManyGroups => &[(Add, 30), (Bind, 34), (Put, 26), (Data, 4), (NextIdAdd, 4), (Kids, 2)],
             Profile::Dense => &[
-                (Add, 14), (Bind, 16), (Put, 12), (Data, 16), (NextId, 14), (NextIdAdd, 14), (Clone, 3), (Merge, 6), (Script, 4), (SaveLoad, 1),
+                (Add, 14), (Bind, 16), (Put, 12), (Data, 16), (NextId, 14), (NextIdAdd, 14), (Clone, 2), (Merge, 6), (Script, 4), (SaveLoad, 1), (Snapshot, 2), (Refresh, 2),
             ],
             Profile::Queries => &[
                 (Add, 18), (Bind, 30), (Put, 16), (Data, 12), (Slice, 8), (Kid, 4), (Kids, 4),
@@ -455,6 +457,8 @@ pub fn resolve(seed: &OpSeed, m: &Model, profile: Profile) -> Option<Call> {
         }
         Kind::Clone => Call::Clone,
         Kind::SaveLoad => Call::SaveLoad,
+        Kind::Snapshot => Call::Snapshot,
+        Kind::Refresh => Call::RefreshSnapshot,
         Kind::Slice => {
             let pres = present_where(m, |i| m.reachable(i).is_some_and(|r| r.len() <= 14));
             if pres.is_empty() {
@@ -561,6 +565,8 @@ pub fn classify(m: &Model, c: &Call) -> Vec<&'static str> {
         Call::Kid(..) => ev.push("kid"),
         Call::Kids(..) => ev.push("kids"),
         Call::Clone => ev.push("clone"),
+        Call::Snapshot => ev.push("snapshot"),
+        Call::RefreshSnapshot => ev.push("clone_from(snapshot)"),
         Call::SaveLoad => ev.push("save+load"),
         Call::Slice(..) => ev.push("slice"),
         Call::Merge { h, .. } => {
@@ -602,7 +608,7 @@ pub fn prelude(profile: Profile, hs: &HistSeed, cfg: Cfg) -> Vec<Call> {
         let pre = hs.order_sel as usize % 4;
         let mut calls: Vec<Call> = (0..pre).map(|i| if (hs.n_sel >> i) & 1 == 1 { Call::NextIdAdd } else { Call::NextId }).collect();
         let room = cfg.cap.saturating_sub(pre + 2);
-        let len = (4 + (hs.order_sel as usize >> 2) % 60).min(room);
+        let len = if cfg.cap >= 600 { 200 + (hs.order_sel as usize >> 2) % 130 } else { 4 + (hs.order_sel as usize >> 2) % 60 }.min(room);
         for i in 0..len {
             calls.push(Call::Add(pre + i));
         }
